@@ -612,7 +612,7 @@ def l3_paths_agree(chk, ctx, rng, count):
     for it in range(max(2, count // 3)):
         d = [1, 2, 1, 3][it % 4]
         n = int(rng.integers(2, 9))
-        N0 = {1: 17, 2: 13, 3: 9}[d]
+        N0 = {1: 33, 2: 17, 3: 9}[d]
         coef = [rng.uniform(0.3, 2.0, 3) for _ in range(d)]
         diffs = []
         for N in (N0, 2 * N0 - 1):
@@ -629,7 +629,7 @@ def l3_paths_agree(chk, ctx, rng, count):
             diffs.append(float(np.max(np.abs(A - D))) / (float(np.max(np.abs(A))) or 1.0))
         chk.l3(('refine', d, n))
         if diffs is not None:
-            if not (diffs[1] <= diffs[0] / 2.5 + 1e-12 and diffs[1] < 0.15):
+            if not (diffs[1] <= diffs[0] / 2.5 + 1e-12 and (d > 1 or diffs[1] < 0.05)):
                 chk.fail('from_phi:direct-vs-analytic', 'direct and semi-analytic paths do not converge: relative difference %.3g at %d points, %.3g at %d points (n=%d, %dD)'
                          % (diffs[0], N0, diffs[1], 2 * N0 - 1, n, d), dict(kind='refine', d=d, n=n, N0=N0, coef=[list(map(float, cf)) for cf in coef]))
 
@@ -1053,10 +1053,10 @@ def run(chk, ctx):
                 % (sorted(set(DIMS_W[tier])), NMAX[tier], PTS[tier], PHI_KINDS))
     chk.unproved = [
         'the F -> 0 limit of the inbreeding path (agreement with the binomial path) is a limit statement: checked numerically (difference proportional to F for F = 1e-2, 1e-3, 1e-4), not proved',
-        'Sum_i BetaBinomConvolution(i, n, a, b, ploidy) = 1 is proved for one individual (C05_betabinom_sum) and conditionally for n individuals (C05_conv_sum_partial); the identification of the partition enumeration with the multinomial expansion is validated numerically (L3: sum and n-fold convolution) for ploidy 2..8',
+        'BetaBinomln / multinomln work in log space through gammaln / betaln: the model evaluates their exponentials exactly (ratio of rising factorials, factorials); that scipy agrees is validated by correspondence (BetaBinomConvolution, 1e-9 + cancellation allowance), the sums C05_betabinom_sum / C05_conv_sum are proved for the exact values',
         'float round-off: the implementation agrees with the exact rational model to 1e-9 of the array scale (inbreeding: plus the cancellation error of betaln at arguments (1-F)/F); IEEE arithmetic is not modelled',
         'scipy.special.betainc / comb, numpy.trapz / dot / allclose are parameters of the model (betainc and comb are compared with their exact values on every run; trapz, dot through the correspondence of whole results)',
-        'the real-analysis reading "entry = integral" is stated through polynomial antiderivatives (C05_1D_exact: F\' = B·l and entry = F(x_{k+1}) - F(x_k)); the Riemann integral itself is only used in the L3 oracle (Gauss-Legendre)',
+        'in d >= 2 dimensions with a grid over-shooting [0,1] the slopes use the caller\'s grid and the incomplete-beta differences the clamped one (as the code does): C05_ND_mass / C05_ND_marginal / C05_ND_iterated assume nodes inside [0,1]; the 1e-16 discrepancy outside is only covered by correspondence and the L3 quadrature (tolerance 1e-9)',
         'direct and semi-analytic paths "agree" only up to the trapezoid discretisation error: checked as second-order convergence under grid refinement, not proved']
     chk.assumptions += ['grids are strictly increasing (C05_mass, C05_ND_mass, C05_ND_marginal assume distinct nodes; C05_ND_* additionally assume nodes inside [0,1], the 1-D theorems hold for over-shooting grids through the clamp)',
                         'sample sizes 1..40 (K); the theorems hold for every size']
